@@ -89,6 +89,7 @@ func TestC11(t *testing.T) {
 // limit, and a candidate declared after the export must get the same id on both chains (ids of
 // removed candidates are never handed out again).
 func TestC11CandidateLimit(t *testing.T) {
+	defer checksDividedBy(4)()
 	rapid.Check(t, func(t *rapid.T) { c11Case(t, true) })
 }
 
